@@ -337,3 +337,23 @@ CHECKS["C04"] = {
         J("inprocess", AGENT, "TestC04Frontends", {"shards": 8, "checks": 80}, {"shards": 16, "checks": 4000}, toolchain="go126"),
     ],
 }
+
+CHECKS["C05"] = {
+    "level": "exploration",
+    "engine": "E2 sasl codec/server",
+    "level_text": "A raw unix-socket client drives the real sasl.Server: generated byte streams (reference-encoded requests, cut at any offset, length fields overwritten, trailing bytes, fewer/more parts, "
+                  "a second request, noise, empty login), generated write fragmentations with pauses, end behaviours (abrupt close, half-close, wait for the reply), callback outcomes (ok/no, error, messages of "
+                  "0..70000 bytes incl. the 253/254 and 65533 boundaries, arbitrary bytes), 1..16 concurrent connections. Callback invocations and reply bytes are compared with a reference decoder.",
+    "level_note": "Trusted: the reference codec, the kernel's unix sockets. Fragment timing only decides how reads are split and is never an oracle. An incomplete stream that the client never closes is "
+                  "outside the statement ('abandoned' = closed) and is half-closed by the harness.",
+    "technique": "property-based testing (rapid) with mutation-based stream generators against a reference decoder; concurrent raw-socket driver; native fuzzing of the connection handler in thorough",
+    "oracle": "callbacks per connection <= 1, exactly 1 iff the reference decoder accepts the stream, with exactly its four fields; reply = exactly one len16||text frame then EOF; text starts with OK iff "
+              "complete and approved without error; sasl.Response.Decode of the reply succeeds and yields the verdict; messages <= 253 bytes arrive unaltered, longer ones as a prefix",
+    "rule": "a case = 1..16 connections. Non-trivial = a stream that is not plain encoder output, or delivered in >= 2 writes, or a callback message > 253 bytes, or >= 2 concurrent connections; "
+            "distinct = distinct (mutation kind, fragment bucket, end behaviour, outcome class, message-length bucket, concurrency, complete)",
+    "assumptions": [],
+    "required_classes": {"all": ["callback-message>253-bytes-delivered", "concurrent-connections", "stream:cut", "stream:lenfield", "end:half-close", "end:wait", "end:close"]},
+    "jobs": [
+        J("server", VSASL, "TestC05Server", {"shards": 8, "checks": 100}, {"shards": 16, "checks": 6000}),
+    ],
+}
